@@ -58,9 +58,15 @@ func init() {
 			return "", err
 		}
 		ok := false
-		if fd.Body != nil && len(fd.Body.List) >= 2 {
-			s0, ok0 := fd.Body.List[0].(*ast.ExprStmt)
-			s1, ok1 := fd.Body.List[1].(*ast.DeferStmt)
+		// args.index: the Lock/defer-Unlock pair starts at this statement of the body (default 0);
+		// the statements before it may only be other Lock/defer-Unlock pairs
+		idx := 0
+		if v, has := f.Args["index"]; has {
+			fmt.Sscanf(v, "%d", &idx)
+		}
+		if fd.Body != nil && len(fd.Body.List) >= idx+2 {
+			s0, ok0 := fd.Body.List[idx].(*ast.ExprStmt)
+			s1, ok1 := fd.Body.List[idx+1].(*ast.DeferStmt)
 			if ok0 && ok1 {
 				a := exprString(fset, s0.X)
 				b := exprString(fset, s1.Call)
